@@ -153,7 +153,7 @@ Theorem flowvar_single_assignment_partial :
                       ws = waiting c /\ waiting c' = [])).
 Proof. exact (conj flow_bound_run flow_single_assignment). Qed.
 
-Theorem signal_hands_over_to_scheduler : forall c w x t, nth_error (cells w) c = Some x -> cur_secs w = Some t ->
+Theorem signal_hands_over_to_scheduler : forall c w x t, nth_error (cells w) c = Some x -> cell_err x = None -> cur_secs w = Some t ->
   (cell_test x = true ->
      fst (do_signal c w) = set_queue (enqueue_all t (waiting x) (queue w)) (set_cell c (mkCell (ckind_of x) []) w)
      \/ (waiting x = [] /\ fst (do_signal c w) = set_cell c (mkCell (ckind_of x) []) w)) /\
@@ -180,7 +180,7 @@ Qed.
    the routine that plays on the clock however deeply the waiting routine is nested below it.
    (Not proved: that the walk never runs out of fuel S (length rts), i.e. parent chains are acyclic.) *)
 Theorem wait_registers_thread_player : forall c w x t p,
-  nth_error (cells w) c = Some x -> cur w = Some (R t) -> cell_test x = false ->
+  nth_error (cells w) c = Some x -> cur w = Some (R t) -> cell_err x = None -> cell_test x = false ->
   tplayer (S (length (rts w))) w t = Some p ->
   fst (fst (do_wait c w)) = set_cell c (mkCell (ckind_of x) (waiting x ++ [p])) w /\
   snd (fst (do_wait c w)) = Some VHang /\
@@ -236,7 +236,7 @@ Proof. exact same_histories_patched_l. Qed.
 Example cond_program_runs :
   let defs := [mkDef Gen false [AWait 0; ALog (VStr 1); AYield (VStr 2)]] in
   map fst (snd (run patched defs 10
-     [OCall (CPlay 0); OTick; OCall (CSignal 0); OTick; OCall (CSetTest 0 true); OCall (CSignal 0);
+     [OCall (CPlay 0); OTick; OCall (CSignal 0); OTick; OCall (CSetTest 0 (TBool true)); OCall (CSignal 0);
       OCall (CSignal 0); OTick; OTick]
      (init_world defs [CCond false])))
   = [Ret VNone; Ret VHang; Ret VNone; Ret VNone; Ret VNone; Ret VNone; Ret VNone; Ret (VStr 2); Ret VNone].
